@@ -8,6 +8,8 @@ K: shared with C02 (harness/dbutil.run_history): the same histories run on the L
 after every step.
 TupimageTerminal always opens /dev/tty, so the assign_id histories run in a `pty.fork()` child with a
 temporary id_database and config="DEFAULT"; the child runs the same history runner with its own driver.
+`objects_history`: one child hosts SEVERAL terminal objects (own database and own configured space / subspace each, through
+different configuration channels), asked in turns - what one object was configured with must not reach another.
 """
 from __future__ import annotations
 
@@ -130,6 +132,87 @@ def forms_history(rng, subs, n_ops=14, max_ids=1024) -> dict:
             "tconfig": tconfig, "ops": [dict(o, n=i) for i, o in enumerate(ops)]}
 
 
+def _object_config(rng, via, sp, su) -> dict:
+    """tconfig of one terminal object: its default space `sp` / subspace `su` (None = not configured: the library default) through `via`"""
+    text_only = via in ("env", "toml")
+    tc = {"via": via}
+    if sp is not None:
+        tc["id_space"] = _space_form(rng, sp, allow_int=(via == "cfgobj"), allow_obj=not text_only)
+    if su is not None:
+        tc["id_subspace"] = _sub_form(rng, su, allow_obj=not text_only)
+    return tc
+
+
+def channel_sequences(rng, n_cases, lo=2, hi=4) -> list:
+    """sequences of configuration channels, one per object of a case, chosen so that every ORDERED pair (earlier object's channel,
+    later object's channel) - the same channel twice included - occurs in some case as early as possible (greedy cover over random
+    candidates; up to 8 more than `n_cases` sequences if that is what the cover takes); once all 36 pairs are covered the sequences are random"""
+    todo = {(a, b) for a in CFG_VIAS for b in CFG_VIAS}
+    out = []
+    while len(out) < n_cases or (todo and len(out) < n_cases + 8):
+        cands = [[rng.choice(CFG_VIAS) for _ in range(rng.randint(lo, hi) if not todo else hi)] for _ in range(40 if todo else 1)]
+        pairs = lambda s: {(s[i], s[j]) for i in range(len(s)) for j in range(i + 1, len(s))}
+        best = max(cands, key=lambda s: len(pairs(s) & todo))
+        todo -= pairs(best)
+        out.append(best)
+    return out
+
+
+def objects_history(rng, vias, subs, max_ids=1024, n_ops=None) -> dict:
+    """SEVERAL TupimageTerminal objects created one after another in ONE process (one pty child), each with its own database file
+    and its own default id_space / id_subspace - pairwise different spaces, pairwise disjoint subspaces, some left unconfigured -
+    given through its own channel (`vias[k]`: keyword, config_overrides, environment, config file, property, TupimageConfig
+    object). Then every object is asked for ids, mostly WITHOUT per-call arguments (some with explicit ones in every form), the
+    objects taking turns; a default changed through the properties of one object must not reach the others. Oracle: Spec.member for
+    the space / subspace the ASKED object was configured with. "obj" on an op names the object; "create": all objects up front, or
+    each right before its first use."""
+    n = len(vias)
+    spaces = rng.sample(SPACES, min(n, len(SPACES))) + [rng.choice(SPACES) for _ in range(max(0, n - len(SPACES)))]
+    # disjoint subspaces: cut points in 1..255
+    cuts = sorted(rng.sample(range(1, 256), 2 * n))
+    dis = [(cuts[2 * i], cuts[2 * i + 1]) for i in range(n)]
+    rng.shuffle(dis)
+    objects, cur = [], []
+    for k, via in enumerate(vias):
+        sp = spaces[k] if rng.random() < 0.85 else None
+        su = (dis[k] if rng.random() < 0.75 else rng.choice(subs)) if rng.random() < 0.85 else None
+        if sp is None and su is None and rng.random() < 0.7:
+            sp = spaces[k]
+        objects.append(_object_config(rng, via, sp, su))
+        cur.append([sp or (24, True), su or (0, 256)])
+    # who is asked when: every object in creation order first, then turns at random
+    turns = list(range(n)) + [rng.randrange(n) for _ in range(rng.randint(0, n + 1))]
+    ops = []
+    for k in turns:
+        for _ in range(n_ops or rng.randint(2, 5)):
+            r = rng.random()
+            if r < 0.06 and ops:
+                o = {"op": "setcfg", "dt": 0, "obj": k}
+                if rng.random() < 0.6:
+                    cur[k][0] = rng.choice(SPACES)
+                    o["id_space"] = _space_form(rng, cur[k][0], allow_int=False)
+                else:
+                    cur[k][1] = rng.choice(subs)
+                    o["id_subspace"] = _sub_form(rng, cur[k][1])
+                ops.append(o)
+                continue
+            o = {"op": "get", "d": f":v:{rng.choice(DESCS[14:30])}", "dt": rng.choice([1, 1, 1000]), "obj": k}
+            sp, su = cur[k]
+            o["spa"] = o["sua"] = {"t": "none"}
+            if rng.random() < 0.2:
+                sp = rng.choice(SPACES)
+                f = _space_form(rng, sp)
+                o["spa"] = {"t": "obj"} if f["t"] == "obj" else f
+            if rng.random() < 0.2:
+                su = rng.choice(subs)
+                f = _sub_form(rng, su)
+                o["sua"] = {"t": "obj"} if f["t"] == "obj" else f
+            o["sp"], o["su"] = [sp[0], bool(sp[1])], list(su)
+            ops.append(o)
+    return {"max_ids": max_ids, "seed": rng.randrange(1 << 30), "start": dbutil.T0, "profile": "objects", "via": "terminal",
+            "create": rng.choice(["upfront", "lazy"]), "objects": objects, "ops": [dict(o, n=i) for i, o in enumerate(ops)]}
+
+
 def outside_history(rng, subs_by_space, max_ids) -> dict:
     """a description already bound to an id just OUTSIDE the requested subspace (same space, subspace byte
     begin-1 / end / 0) must not be handed out for the request: force-set such ids, then request."""
@@ -196,9 +279,12 @@ def _child(case: dict, out_path: str):
     drv = Driver("drv_db")
     res = {"error": None}
     try:
-        term = _make_terminal(TupimageTerminal, case, d)
-        fd = run_history(drv, case, terminal=term)
-        res.update(mismatches=fd.mismatches, violations=fd.violations, stats=fd.stats)
+        if case.get("objects"):
+            res.update(_run_objects(TupimageTerminal, drv, case, d))
+        else:
+            term = _make_terminal(TupimageTerminal, case, d)
+            fd = run_history(drv, case, terminal=term)
+            res.update(mismatches=fd.mismatches, violations=fd.violations, stats=fd.stats)
     except BaseException as e:          # noqa: BLE001
         import traceback
         res["error"] = f"{type(e).__name__}: {e}\n{traceback.format_exc()[-1500:]}"
@@ -208,6 +294,81 @@ def _child(case: dict, out_path: str):
         shutil.rmtree(d, ignore_errors=True)
     with open(out_path, "w") as f:
         json.dump(res, f, default=repr)
+
+
+class _ResumingDriver:
+    """the driver of a run that continues on a database which already has rows (an object asked again later): right after the
+    runner's `reset` the model is handed the id tables as they are in the file (`bulk` = mirror of rows put there directly)"""
+
+    def __init__(self, drv, database_file: str):
+        self._drv = drv
+        self._file = database_file
+
+    def __getattr__(self, name):
+        return getattr(self._drv, name)
+
+    def ask(self, line: str):
+        r = self._drv.ask(line)
+        if line.startswith("reset "):
+            import sqlite3
+            conn = sqlite3.connect(self._file, isolation_level=None)
+            try:
+                dump = dbutil.dump_tables(conn)
+            finally:
+                conn.close()
+            for spi, rows in enumerate(dump["ids"]):
+                if rows and self._drv.ask(f"bulk {dbutil.sp_tok(SPACES[spi])} {dbutil.enc_table(rows)}") != "ok":
+                    raise RuntimeError("driver rejected the tables of a resumed object")
+        return r
+
+
+def _run_objects(TupimageTerminal, drv, case: dict, d: str) -> dict:
+    """several terminal objects in this one process (case["objects"][k] = tconfig of object k, each with its own directory and
+    database); the ops are cut into maximal runs with the same "obj", each run is one run_history on that object's terminal
+    (the model session restarts from the object's current tables, the clock moves on an hour per run)"""
+    objs = case["objects"]
+    terms: dict = {}
+
+    def create(k):
+        # what the environment said for an earlier object is gone before the next one is made
+        for name in [name for name in os.environ if name.startswith("TUPIMAGE")]:
+            del os.environ[name]
+        dk = os.path.join(d, f"obj{k}")
+        os.makedirs(dk, exist_ok=True)
+        terms[k] = _make_terminal(TupimageTerminal, dict(case, tconfig=objs[k]), dk)
+
+    out = {"mismatches": [], "violations": [], "stats": {}}
+    try:
+        if case.get("create", "upfront") == "upfront":
+            for k in range(len(objs)):
+                create(k)
+        runs = []
+        for o in case["ops"]:
+            k = int(o.get("obj", 0))
+            if runs and runs[-1][0] == k:
+                runs[-1][1].append(o)
+            else:
+                runs.append((k, [o]))
+        for i, (k, ops) in enumerate(runs):
+            if k not in terms:
+                for j in range(k + 1):          # objects come into being in their order
+                    if j not in terms:
+                        create(j)
+            fd = run_history(_ResumingDriver(drv, terms[k].id_manager.database_file),
+                             dict(case, ops=ops, start=case.get("start", dbutil.T0) + i * 3_600_000_000), terminal=terms[k])
+            out["mismatches"] += [(f"object {k} ({objs[k].get('via')}): {m[0]}",) + tuple(m[1:]) for m in fd.mismatches]
+            out["violations"] += [(v[0], v[1], {"object": k, "configured": objs[k], "detail": v[2]}) for v in fd.violations]
+            for key, val in fd.stats.items():
+                out["stats"][key] = out["stats"].get(key, 0) + val
+            out["stats"][f"object-runs:object#{min(k, 3)}{'+' if k > 3 else ''}:{objs[k].get('via')}"] = \
+                out["stats"].get(f"object-runs:object#{min(k, 3)}{'+' if k > 3 else ''}:{objs[k].get('via')}", 0) + 1
+    finally:
+        for t in terms.values():
+            try:
+                t.id_manager.close()
+            except Exception:          # noqa: BLE001
+                pass
+    return out
 
 
 def _make_terminal(TupimageTerminal, case: dict, d: str):
@@ -289,6 +450,12 @@ def check_case(ctx: Ctx, case: dict):
         fd.violations = [tuple(v) for v in res["violations"]]
         fd.stats = res["stats"]
         ctx.count("assign_id-gets", fd.stats.get("op:get", 0))
+        if case.get("objects"):
+            vs = [o.get("via") for o in case["objects"]]
+            ctx.count(f"objects-in-one-process:{len(vs)}")
+            ctx.count("objects-created:" + case.get("create", "upfront"))
+            for a, b in sorted({(vs[i], vs[j]) for i in range(len(vs)) for j in range(i + 1, len(vs))}):
+                ctx.count(f"object-channels:{a}->{b}")
         report(ctx, dict(case, no_minimise=True), fd, PROP)
         return fd
     fd = run_history(ctx.driver("drv_db"), case)
@@ -302,6 +469,11 @@ def cases(ctx: Ctx):
     quick = ctx.quick
     subs = [(b, e) for b in range(256) for e in range(b + 1, 257) if e != 1]
     bsubs = boundary_subs()
+    # 0. several terminal objects in ONE process, each configured through its own channel with its own space / subspace: every ordered
+    #    pair of channels (earlier object -> later object); first, because it is the only family with more than one object per process
+    near = [(30, 40), (100, 200), (1, 2), (0, 2), (255, 256), (0, 256), (1, 256), (5, 9), (40, 100), (200, 256)]
+    for vias in channel_sequences(rng, 10 if quick else 60):
+        yield objects_history(rng, vias, near + rng.sample(subs, 4), rng.choice([1024, 1024, 2]))
     # 1. one request per (space, boundary subspace), both enumerable and large path, several max_ids
     for max_ids in (1024, 1, 10**6):
         for sp in SPACES:
@@ -327,7 +499,6 @@ def cases(ctx: Ctx):
     yield fill_history(rng, (0, True), (254, 256), 1, 2, via="terminal")
     yield sweep_history(rng, [(sp, su) for sp in SPACES for su in rng.sample(subs, 8)], 2, 1, via="terminal")
     # 3b. one long-lived terminal, configured non-default space/subspace, every argument form, defaults changed in between
-    near = [(30, 40), (100, 200), (1, 2), (0, 2), (255, 256), (0, 256), (1, 256), (5, 9), (40, 100), (200, 256)]
     for _ in range(6 if quick else 40):
         yield forms_history(rng, near + rng.sample(subs, 4), rng.choice([8, 14, 24]))
     # 4. random subspaces of every space (thorough: all 5 x 32 895), sizes of every class; then mixed C02-style histories
@@ -351,10 +522,13 @@ def cases(ctx: Ctx):
             yield dict(gen02(rng, "collide", rng.randint(5, 60)), profile="collide")
         elif r < 0.72:
             yield forms_history(rng, rng.sample(subs, 6) + [(0, 256), (1, 2)], rng.choice([6, 14, 30]), rng.choice([1, 2, 1024]))
-        elif r < 0.74 and k % 3 == 0:
+        elif r < 0.73:
+            yield objects_history(rng, [rng.choice(CFG_VIAS) for _ in range(rng.randint(2, 5))], rng.sample(subs, 6) + [(0, 256), (1, 2)],
+                                  rng.choice([1, 2, 1024]))
+        elif r < 0.75 and k % 3 == 0:
             k += 1
             yield sweep_history(rng, [(sp, su) for sp in SPACES for su in rng.sample(subs, 4)], rng.choice([1, 1024]), 1, via="terminal")
-        elif r < 0.77 and not quick:
+        elif r < 0.78 and not quick:
             yield gen02(rng, "bulk255", rng.randint(5, 40))
         else:
             yield gen02(rng, rng.choice(["small", "boundary", "mixed", "mixed"]), rng.choice([5, 20, 60, 150]))
@@ -367,6 +541,10 @@ def run(ctx: Ctx):
                 "collisions and clean-ups; TupimageTerminal.assign_id in a pty child, incl. one long-lived terminal with a configured non-default "
                 "space/subspace (object / text alias, through keyword, config_overrides, environment, config file, property, TupimageConfig), "
                 "explicit arguments in every accepted form (object, text alias, int) mixed with default (None) calls and property changes; "
+                "SEVERAL terminal objects (2-5) created one after another in one process, each with its own database and its own default "
+                "space / subspace (pairwise different spaces, disjoint subspaces, some unconfigured) through its own channel - every ordered "
+                "pair of the six channels - created up front or lazily, asked in turns mostly without per-call arguments, properties of one "
+                "changed in between: every id judged against the configuration of the object that was asked; "
                 "mixed histories alternate between 1-3 IDManager objects on the one file. distinct = canonical JSON; non-trivial = "
                 "history with at least one returned id")
     run_corpus(ctx, PROP, check_case)
